@@ -35,12 +35,18 @@ MCInit ==
 \* they did (the announcer's own steps - restart, timer, replies, "completed" - do overlap with them)
 Calm == \A r \in rq : r.ph \notin {"zombie", "stop"}
 
+\* ... and before the tier has been advanced a second time: a failing reply waits for the side requests that used an
+\* older member (otherwise a cancelled call that lingers for a whole cycle would advance the tier once more: ABA)
+Prompt(r) == \A z \in rq : (z.t = r.t /\ z.ph \in {"zombie", "stop"}) => z.li = r.li
+Answer(r) == (up[r.k] \/ Prompt(r)) /\ Reply(r)
+ConnErr(r) == Prompt(r) /\ DeliverErr(r)
+
 MCNext ==
     \/ \E t \in T : Start(t) \/ Fire(t) \/ AnnComplete(t)
     \/ ("stop" \in ENV /\ Calm /\ \E t \in T : Stop(t))
     \/ ("complete" \in ENV /\ Calm /\ \E t \in T : Complete(t))
     \/ ("need" \in ENV /\ Calm /\ \E t \in T, v \in BOOLEAN : Need(t, v))
-    \/ \E r \in rq : Reply(r) \/ DeliverErr(r) \/ SideEnd(r)
+    \/ \E r \in rq : Answer(r) \/ ConnErr(r) \/ SideEnd(r)
     \/ \E k \in K : ConnStep(k)
     \/ ("expire" \in ENV /\ Calm /\ \E k \in K : ConnExpire(k))
     \/ ("flip" \in ENV /\ Calm /\ \E k \in K : Flip(k))
@@ -48,7 +54,7 @@ MCNext ==
 \* the announcer's own steps and the tracker's answers are fair; torrent events and tracker outages are not
 Fair ==
     /\ \A t \in 1 .. NT : WF_vars(Fire(t))
-    /\ \A t \in 1 .. NT : WF_vars(\E r \in rq : r.t = t /\ (Reply(r) \/ DeliverErr(r) \/ SideEnd(r)))
+    /\ \A t \in 1 .. NT : WF_vars(\E r \in rq : r.t = t /\ (Answer(r) \/ ConnErr(r) \/ SideEnd(r)))
     /\ \A k \in 1 .. NM : WF_vars(ConnStep(k))
 
 MCSpec == MCInit /\ [][MCNext]_vars /\ Fair
